@@ -944,19 +944,19 @@ class Reaction(Object):
         """
         # no references to model when copying
         model = self._model
+        # the metabolites and genes may belong to a model that the reaction
+        # itself has been removed from
+        member_models = [(i, i._model) for i in self._metabolites]
+        member_models.extend((i, i._model) for i in self._genes)
         self._model = None
-        for i in self._metabolites:
-            i._model = None
-        for i in self._genes:
+        for i, _ in member_models:
             i._model = None
         # now we can copy
         new_reaction = deepcopy(self)
         # restore the references
         self._model = model
-        for i in self._metabolites:
-            i._model = model
-        for i in self._genes:
-            i._model = model
+        for i, member_model in member_models:
+            i._model = member_model
         return new_reaction
 
     def __add__(self, other: "Reaction") -> "Reaction":
